@@ -193,6 +193,46 @@ func do(method, path string, body []byte) (int, string) {
 	return w.Code, w.Body.String()
 }
 
+// cutBody delivers the first k bytes of data and then fails the way the body of a request does whose client went away
+type cutBody struct {
+	data []byte
+	k    int
+	off  int
+}
+
+func (c *cutBody) Read(p []byte) (int, error) {
+	if c.off >= c.k {
+		return 0, io.ErrUnexpectedEOF
+	}
+	n := copy(p, c.data[c.off:c.k])
+	c.off += n
+	return n, nil
+}
+
+func (c *cutBody) Close() error { return nil }
+
+// doCut: the request announces all of body, the server receives k bytes of it
+func doCut(method, path string, body []byte, k int, json bool) (int, string) {
+	if k > len(body) {
+		k = len(body)
+	}
+	req := httptest.NewRequest(method, path, nil)
+	req.Body = &cutBody{data: body, k: k}
+	req.ContentLength = int64(len(body))
+	req.Host = "127.0.0.1"
+	if json {
+		req.Header.Set("Content-Type", "application/json")
+	}
+	w := &rec{httptest.NewRecorder(), make(chan bool, 1)}
+	getRouter().ServeHTTP(w, req)
+	return w.Code, w.Body.String()
+}
+
+func num(c map[string]any, k string) (int, bool) {
+	f, ok := c[k].(float64)
+	return int(f), ok
+}
+
 func doJSON(method, path string, v any) (int, string) {
 	b, _ := json.Marshal(v)
 	return do(method, path, b)
@@ -217,7 +257,14 @@ func runOp(dir string, op map[string]any) map[string]any {
 		if err != nil {
 			panic(err)
 		}
-		code, body = do("POST", "/api/blobs/"+str(op, "digest"), data)
+		if z, ok := num(op, "zeros"); ok {
+			data = append(data, make([]byte, z)...)
+		}
+		if k, ok := num(op, "abort"); ok {
+			code, body = doCut("POST", "/api/blobs/"+str(op, "digest"), data, k, false)
+		} else {
+			code, body = do("POST", "/api/blobs/"+str(op, "digest"), data)
+		}
 	case "create":
 		r := map[string]any{"model": str(op, "name")}
 		if ns, _ := op["nostream"].(bool); ns {
@@ -228,7 +275,19 @@ func runOp(dir string, op map[string]any) map[string]any {
 				r[k] = v
 			}
 		}
-		code, body = doJSON("POST", "/api/create", r)
+		if k, ok := num(op, "abort"); ok {
+			// the JSON of the request is cut off after k bytes ("pad": a long license text makes the request long)
+			if z, ok := num(op, "pad"); ok {
+				r["license"] = strings.Repeat("L", z)
+			}
+			b, _ := json.Marshal(r)
+			if k >= len(b) {
+				k = len(b) - 1
+			}
+			code, body = doCut("POST", "/api/create", b, k, true)
+		} else {
+			code, body = doJSON("POST", "/api/create", r)
+		}
 	case "copy":
 		code, body = doJSON("POST", "/api/copy", map[string]any{"source": str(op, "src"), "destination": str(op, "dst")})
 	case "delete":
